@@ -185,7 +185,17 @@ def observe(prog):
         try:
             with warnings.catch_warnings():
                 warnings.simplefilter("ignore")
-                out["model"] = build(ins, outs)
+                if prog.get("with_opset"):
+                    # the low-level Graph API: extra opset requirements, possibly spelled "ai.onnx"
+                    from spox._graph import results
+
+                    for name, var in ins.items():
+                        var._rename(name)
+                    graph = results(**outs).with_arguments(*ins.values())
+                    graph = graph.with_opset(*[(d, int(v)) for d, v in prog["with_opset"]])
+                    out["model"] = graph.to_onnx_model()
+                else:
+                    out["model"] = build(ins, outs)
         except Exception as e:  # noqa: BLE001
             out.update(error=e, stage="build")
     return out
@@ -233,6 +243,7 @@ def to_model_input(sp: Spies):
         return ids[id(node)]
 
     def concrete(node):
+        """adapt_node can build a valid singleton model: all ranks known, no reference attribute"""
         vs = list(node.inputs.get_vars().values()) + list(node.outputs.get_vars().values())
         return all(v.type is not None and getattr(v.type, "shape", ()) is not None for v in vs)
 
@@ -269,8 +280,9 @@ def to_model_input(sp: Spies):
                         if len(ch) != 1:
                             notes.append(f"body {want}: {len(ch)} compile records")
                         subs += [graph(c) for c in ch[:1]]
+                has_ref = any(a.ref_attr_name for p_ in protos for a in p_.attribute)
                 j.update(k="op", d=node.op_type.domain, o=node.op_type.identifier, v=node.op_type.version,
-                         c=concrete(node), subs=subs)
+                         c=concrete(node) and not has_ref, subs=subs)
             out.append(j)
         if n_intro != 1:
             notes.append(f"{n_intro} _Introduce nodes in one compiled graph")
@@ -395,10 +407,16 @@ def extract_real(obs):
         real["imports"] = [[o.domain, o.version] for o in obs["model"].opset_import]
 
         def collect(g):
+            # BuildResult.functions: the graph's own Function nodes (each with its graph's functions),
+            # then the functions of the bodies of its other nodes
             for j in g["nodes"]:
                 n = nodes_by_id[j["id"]]
                 if isinstance(n, Function):
                     real["func_keys"].append([n.op_type.domain, n.op_type.identifier])
+                    for s_ in j.get("subs", []):
+                        collect(s_)
+            for j in g["nodes"]:
+                if not isinstance(nodes_by_id[j["id"]], Function):
                     for s_ in j.get("subs", []):
                         collect(s_)
 
@@ -686,6 +704,9 @@ def classify(stage, prog, msg=""):
         return "adapt:body-own-opsets:converted-node-in-body"
     if bad_attr and "inline-in-body-below-import" in feats and feats <= body_family:
         return "adapt:body-own-opsets:inline-in-body"
+    if stage in ("build-raises-InferenceError", "construct-raises-InferenceError") and "expect a" in msg \
+            and feats == {"ref-attr-converted"}:
+        return "adapt:ref-attribute-in-function-body:build-fails"
     if bad_attr and feats == {"inline-below-14-target-14"}:
         return "adapt-inline:source-below-14:not-converted"
     return f"{stage}:{'+'.join(sorted(feats)) or 'plain'}"
@@ -810,7 +831,7 @@ def witness_programs():
     out = []
     for name in ("C09-body-own-opsets.json", "C09-unknown-rank.json", "C09-duplicate-fresh-name.json",
                  "C09-inline-below-14.json", "C09-fresh-name-main-and-body.json",
-                 "C09-inline-in-body.json"):
+                 "C09-inline-in-body.json", "C09-ref-attribute.json"):
         p = FINDINGS_DIR / name
         if p.exists():
             out.append((name, json.loads(p.read_text())["case"]["prog"]))
@@ -831,7 +852,7 @@ def gen_programs(ck):
         progs.append(("clean" if clean else "dirty", prog))
         has_func = any(st["op"] == "func" for st, *_ in L.walk(prog["nodes"]))
         has_dyn = bool(L.tainted_ids(prog))  # values of unknown rank (run-time reshape, Loop results)
-        if clean and not has_dyn and (has_func or rng.random() < 0.08):
+        if clean and not has_dyn and "with_opset" not in prog and (has_func or rng.random() < 0.08):
             # multi-build history: the same Vars (function applications included) are first built into
             # a model with the original outputs, then into one whose maximum is raised by v21 identities
             p2 = copy.deepcopy(prog)
@@ -890,6 +911,21 @@ def targeted_programs():
     for k, opn in enumerate(sorted(L.ORT_MACROS)):
         for src, (top, tmv) in ((17, ("identity", 21)), (18, ("isnan_w", 20)), (19, ("identity", 21))):
             P.append({"nodes": [st("a", opn, src, ["x"]), st("b", top, tmv, ["a"])], "outs": ["b"]})
+    # extra requirements through Graph.with_opset, the default domain spelled "ai.onnx" (as spox's tests do):
+    # below / at / above the operators' maximum
+    for dom in ("ai.onnx", ""):
+        for n in (13, 17, 18, 20, 21):
+            P.append({"nodes": [st("a", "rmean", 17, ["x"], axis=1), st("b", "rmax", 18, ["a"], axis=0)],
+                      "outs": ["b"], "with_opset": [[dom, n]]})
+        P.append({"nodes": [st("a", "abs", 17, ["x"])], "outs": ["a"], "with_opset": [[dom, 12]]})
+        P.append({"nodes": [{"id": "i", "op": "if", "mv": 17, "cond": "c",
+                             "then": {"nodes": [st("t", "rl1", 17, ["x"], axis=1)], "out": "t"},
+                             "else": {"nodes": [st("e", "neg", 17, ["y"])], "out": "e"}}],
+                  "outs": ["i"], "with_opset": [[dom, 19]]})
+    for body, opset in (("unsq_sq_relu", 11), ("relu_neg", 13), ("relu_neg", 15)):
+        md = {"kind": "old", "body": body, "opset": opset, "alias": True}
+        P.append({"nodes": [{"id": "a", "op": "inline", "model": md, "args": ["x"]}], "outs": ["a"]})
+        P.append({"nodes": [{"id": "a", "op": "inline", "model": md, "args": ["x"]}, st("b", "rmin", 18, ["a"], axis=1)], "outs": ["b"]})
     # Loop bodies (has-subgraph, never converted themselves) with convertible nodes inside
     P.append({"nodes": [{"id": "l", "op": "loop", "mv": 17, "param": "s", "args": ["x"],
                          "body": {"nodes": [st("t", "rmean", 17, ["s"], axis=1), st("u", "add", 17, ["t", "y"])], "out": "u"}},
@@ -1077,7 +1113,8 @@ def run(ck: core.Check):
     if drv is not None:
         asked = [r for r in results if r["real"] and r["real"].get("request") is not None]
         try:
-            outs = drv.ask_many("C09", [{"t": "model", "graph": r["real"]["request"]} for r in asked])
+            outs = drv.ask_many("C09", [{"t": "model", "graph": r["real"]["request"],
+                                         "extra": cases[r["idx"]][1].get("with_opset", [])} for r in asked])
             answers = {r["idx"]: o for r, o in zip(asked, outs)}
         except Exception as e:  # noqa: BLE001
             ck.broken("correspondence", "C09 driver batch", f"{type(e).__name__}: {e}")
